@@ -295,7 +295,7 @@ func TestC32(t *testing.T) {
 	for _, p := range AllParrots {
 		srcs = append(srcs, src{p.Name, p.ID})
 	}
-	nrand := mon.Pick(1000, 10000)
+	nrand := mon.Pick(1000, 60000)
 	for i := 0; i < nrand; i++ {
 		rg := Sub("C32rand", i)
 		var seed tls.PRNGSeed
